@@ -671,6 +671,15 @@ class Exec:
         if m:
             selfn, traitn, meth = base_name(m.group(1)), base_name(m.group(2)), m.group(3)
             f = self.find_impl(meth, traitn, selfn)
+            if f is None and traitn in ("From", "TryFrom"):
+                # several `impl From<T> for X`: pick the one whose parameter type is the T of this call
+                ga = re.search(r"From<(.*)>$", m.group(2).strip())
+                if ga:
+                    want = base_name(ga.group(1))
+                    cands = [c for c in self.by_method.get(meth, []) if (impl_info(c.name) or (None, None))[1] == selfn and (impl_info(c.name)[0] or "").endswith(traitn)
+                             and c.params and base_name(c.params[0][1]) == want]
+                    if len(cands) == 1:
+                        f = cands[0]
             if f is not None and args:
                 # a receiver that is one of the harness/intrinsic model objects (scripted iterator, sink, ...) is served by its model
                 rv0 = args[0]
@@ -906,6 +915,8 @@ class Exec:
                     return usize(len(t))
                 if isinstance(t, (Arr, VecV)):
                     return usize(len(t.items))
+                if hasattr(t, "lo") and hasattr(t, "hi"):        # a mutable sub-slice view (buf[a..b])
+                    return usize(t.hi - t.lo)
             raise Unsupported("unop " + rv.op)
         if k == "cast":
             a = self.eval_operand(frame, rv.a)
